@@ -212,7 +212,7 @@ func r08_2(c *Ctx, rule string) {
 		}
 		for lit := range holders {
 			c.R.Analysed(c.name(lit))
-			if lit.Parent() != run {
+			if c.P.Encloser(lit) != run {
 				c.R.Fail(rule, end+"/recv-holder", c.P.Pos(lit.Pos()), "the function holding RecvMsg ("+c.name(lit)+") is not a literal of "+end)
 				continue
 			}
@@ -221,7 +221,7 @@ func r08_2(c *Ctx, rule string) {
 			okAll := true
 			eng.Instrs(run, func(in ssa.Instruction) {
 				mc, ok := in.(*ssa.MakeClosure)
-				if !ok || mc.Fn != ssa.Value(lit) {
+				if !ok || c.P.ClosureFn(mc) != lit {
 					return
 				}
 				for _, ref := range eng.Referrers(mc) {
@@ -506,7 +506,7 @@ func r08_4(c *Ctx, rule string) {
 							if !isMC {
 								continue
 							}
-							if mc.Fn != ssa.Value(fn) && c.P.DescribeFuncValue(mc) != c.name(fn) {
+							if mc.Fn != ssa.Value(fn) && c.P.ClosureFn(mc) != fn && c.P.DescribeFuncValue(mc) != c.name(fn) {
 								continue
 							}
 							nDo++
